@@ -3263,6 +3263,8 @@ static void create_param_lvars(Type *param) {
     create_param_lvars(param->next);
     if (!param->name)
       error_tok(param->name_pos, "parameter name omitted");
+    if (param->size < 0)
+      error_tok(param->name, "parameter has incomplete type");
     new_lvar(get_ident(param->name), param);
   }
 }
